@@ -28,7 +28,8 @@ def _roles(ctx, comp, ex, rule):
             elif f.rhs == ("arg", w.bodyid) and data is None:
                 data = f.lhs
     if valid is None or data is None:
-        raise AnalysisError(rule, w.site, f"{comp.clsname}.write: cannot identify valid flag / data register roles")
+        raise AnalysisError(rule, w.site, f"{comp.clsname}.write: cannot identify valid flag / data register roles",
+                            missing=f"{comp.clsname}.write: " + ("a register set to 1 by write (valid flag)" if valid is None else "a register loaded with write's argument (data register)"))
     return w, r, p, c, valid, data
 
 
